@@ -16,6 +16,8 @@
     choose_lookup_extracted choose_outer_text_not_looked_up msg_lookup_extracted_elem
     code_calls_extracted identity_transparent_msg_sub choose_extract_succeeds
     sub_attrs_not_extracted wide_of_plain identity_transparent_msg_reorder
+    translate_format_id_brackets msg_identity_brackets msg_identity_elem_brackets brackets_of_clean
+    placeholder_text_straddles
 -/
 import Genshi.Lemmas.I18nTree
 import Genshi.Lemmas.I18nStarts
@@ -432,7 +434,9 @@ theorem choose_outer_text_not_looked_up :
 /-! ## the message format: `parse_msg`, `MessageBuffer`, `MsgDirective` -/
 
 /-- **parse_msg ∘ format**: parsing the linearisation `s0 [n₁:…] seg₁ …` of any translation
-    tree whose text segments hold no bracket and no backslash yields exactly its parts
+    tree whose text segments are plain (`plainSeg`: every bracket is escaped `\[` / `\]`, every
+    backslash escapes a bracket, no `\[<digits>:` — in particular segments without bracket and
+    backslash, `plainSeg_of_bare`) yields exactly its parts
     `(level, text)`, in order (empty parts are kept inside placeholders and dropped at the
     top level, as `parse_msg` does). -/
 theorem parse_format (s0 : Str) (r : XRest) (h0 : plainSeg s0 = true) (h : r.plain = true) :
@@ -571,6 +575,69 @@ theorem translate_format_id (F : List MNode) (extra : List Str)
     ∃ b, mbAppendList (MB.new (namesM F ++ extra)) (flattenM F) = .ok b ∧
       b.translate b.format = .ok (coalesce (flattenM (trimF F))) :=
   translate_format_self F extra hc hna hnd hso
+
+/-- **translate_format_id, brackets in the text.**  `MessageBuffer.append` escapes the brackets
+    of the text (`see [here]` is filed as `see \[here\]`), `parse_msg` leaves escaped brackets
+    alone and `yield_parts` removes the backslashes again: the identity holds for text with
+    brackets as well (`cleanB`: no backslash, no percent sign) **provided the message string
+    holds no `\[<digits>:`** (`segsOK`, a condition on the segments of the whole `format()`
+    string: `parse_msg` takes `\[12:` for a placeholder in spite of the backslash — finding
+    C19-placeholder-text — and the digits and the colon may come from different text events,
+    witness `placeholder_text_straddles`). -/
+theorem translate_format_id_brackets (F : List MNode) (extra : List Str)
+    (hc : cleanB F = true) (hsg : segsOK (trimF F) = true)
+    (hna : deepNoAdjM F = true) (hnd : (namesM F).Nodup) (hso : subsOKM false F = true) :
+    ∃ b, mbAppendList (MB.new (namesM F ++ extra)) (flattenM F) = .ok b ∧
+      b.translate b.format = .ok (coalesce (flattenM (trimF F))) :=
+  translate_format_selfB F extra hc hsg hna hnd hso
+
+/-- … and `MsgDirective.__call__` under the identity catalogue, attribute and element form -/
+theorem msg_identity_brackets (t : QName) (a : TAttrs) (F : List MNode) (extra : List Str)
+    (hc : cleanB F = true) (hsg : segsOK (trimF F) = true)
+    (hna : deepNoAdjM F = true) (hnd : (namesM F).Nodup) (hso : subsOKM false F = true) :
+    msgGenerate (namesM F ++ extra) (fun s => s) (.start t a :: (flattenM F ++ [.end_ t])) =
+      .ok (.start t a :: (coalesce (flattenM (trimF F)) ++ [.end_ t])) :=
+  msgGenerate_identity_attrB t a F extra hc hsg hna hnd hso
+
+theorem msg_identity_elem_brackets (n : MNode) (mid : List MNode) (l : MNode) (extra : List Str)
+    (hn : n.isElem = false) (hl : l.isElem = false)
+    (hc : cleanB (n :: (mid ++ [l])) = true) (hsg : segsOK (trimF (n :: (mid ++ [l]))) = true)
+    (hna : deepNoAdjM (n :: (mid ++ [l])) = true)
+    (hnd : (namesM (n :: (mid ++ [l]))).Nodup) (hso : subsOKM false (n :: (mid ++ [l])) = true) :
+    msgGenerate (namesM (n :: (mid ++ [l])) ++ extra) (fun s => s) (flattenM (n :: (mid ++ [l]))) =
+      .ok (coalesce (flattenM (trimF (n :: (mid ++ [l]))))) :=
+  msgGenerate_identity_elemB n mid l extra hn hl hc hsg hna hnd hso
+
+/-- the bracket-free hypothesis of `translate_format_id` is a special case -/
+theorem brackets_of_clean (F : List MNode) (h : cleanM F = true) : cleanB F = true ∧ segsOK (trimF F) = true :=
+  ⟨cleanB_of_cleanM F h, segsOK_of_cleanM _ (cleanM_trimF F h)⟩
+
+/-- `<p i18n:msg="n"> see [here] and <b>a[${n}]</b> [12 </p>`: the hypotheses hold (the message
+    string is `see \[here\] and [1:a\[%(n)s\]] \[12`) and the model returns the content -/
+example :
+    cleanB [.text [' ','s','e','e',' ','[','h','e','r','e',']',' ','a','n','d',' '],
+            .elem none ⟨[], ['b']⟩ [] [.text ['a','['], .expr ['n'] 0 [], .text [']']], .text [' ','[','1','2',' ']] = true ∧
+    segsOK (trimF [.text [' ','s','e','e',' ','[','h','e','r','e',']',' ','a','n','d',' '],
+            .elem none ⟨[], ['b']⟩ [] [.text ['a','['], .expr ['n'] 0 [], .text [']']], .text [' ','[','1','2',' ']]) = true ∧
+    msgGenerate [['n']] (fun s => s)
+      [.start ⟨[], ['p']⟩ [], .text [' ','s','e','e',' ','[','h','e','r','e',']',' ','a','n','d',' '],
+       .start ⟨[], ['b']⟩ [], .text ['a','['], .expr 0 [], .text [']'], .end_ ⟨[], ['b']⟩, .text [' ','[','1','2',' '],
+       .end_ ⟨[], ['p']⟩] =
+    .ok [.start ⟨[], ['p']⟩ [], .text ['s','e','e',' ','[','h','e','r','e',']',' ','a','n','d',' '],
+       .start ⟨[], ['b']⟩ [], .text ['a','['], .expr 0 [], .text [']'], .end_ ⟨[], ['b']⟩, .text [' ','[','1','2'],
+       .end_ ⟨[], ['p']⟩] := by
+  refine ⟨by decide +kernel, by decide +kernel, by decide +kernel⟩
+
+/-- C19-placeholder-text, straddling two text events: `a [12` and `:x] b` are harmless on their
+    own (`segsOK` holds for each), together the message string holds `\[12:` — `segsOK` fails and
+    rendering raises KeyError: the condition has to look at the whole `format()` string. -/
+theorem placeholder_text_straddles :
+    segsOK (trimF [.text ['a',' ','[','1','2']]) = true ∧ segsOK (trimF [.text [':','x',']',' ','b']]) = true ∧
+    segsOK (trimF [.text ['a',' ','[','1','2'], .text [':','x',']',' ','b']]) = false ∧
+    msgGenerate [] (fun s => s)
+      [.start ⟨[], ['p']⟩ [], .text ['a',' ','[','1','2'], .text [':','x',']',' ','b'], .end_ ⟨[], ['p']⟩] =
+    .error .keyError := by
+  refine ⟨by decide +kernel, by decide +kernel, by decide +kernel, by decide +kernel⟩
 
 /-- **identity_transparent, message directive in attribute form** (`<p i18n:msg="…">`):
     under the identity catalogue `MsgDirective.__call__` returns its element with the content
